@@ -275,6 +275,10 @@ def _mags(pieces, xmin, xmax, x):
     return (m0, m1, m2)
 
 def plot_func(v): return 3.0 * v * v - 1.0 + 0.5 * v
+def plot_trimmed(v): return 0 if v < 1.0 else 2.75 - 0.9 * (v - 1.0)        # an int below 1.0, floats above: every row is f(x_i), whatever the type of the first value
+def plot_func_of(case): return plot_trimmed if case.get('func') == 'trimmed' else plot_func
+def plot_oracle_corpus():
+    return [{'kind': 'plot', 'lowx': 0.0, 'highx': 4.0, 'steps': 16, 'route': rt, 'func': 'trimmed'} for rt in ('plot', 'plotToFile', 'plotPotentialObjectToFile')]
 
 def compare(case, zs, extra=None):
     """model answer zs against the implementation; returns a description or None"""
@@ -366,7 +370,7 @@ def correspond(ctx):
                     '[Table-Form] cubic_spline tables (4..40, thorough ..200 points, uneven spacing, x/y and xy spellings with newline continuation) built through ConfigParser + Potential_Form_Registry: value/deriv/deriv2 '
                     'against the piecewise polynomial read back from the fitted object, zero outside; _parse_xy/_parse_x_y outcomes incl. odd counts, length mismatch, x-only, both; plotToFile/plot/plotPotentialObject(ToFile) '
                     'rows against plot_xs; non-trivial = everything except malformed spellings',
-            'samples': [{k: (v if k != 'lines' else v[:4]) for k, v in c.items()} for c in cases[:3]], 'distribution': dist, 'disagreements': dis[:20], 'oracle_cases': cases[:150]}
+            'samples': [{k: (v if k != 'lines' else v[:4]) for k, v in c.items()} for c in cases[:3]], 'distribution': dist, 'disagreements': dis[:20], 'oracle_cases': plot_oracle_corpus() + cases[:147]}
 
 def corpus():
     """fixed cases that run first"""
@@ -429,6 +433,7 @@ def oracle(case):
             if abs(f.deriv2(x) - d2) > 1e-6 * (m1 / h + abs(d2)) + 1e-9: fails.append('deriv2(%r) = %r, deriv has slope %r' % (x, f.deriv2(x), d2))
         return fails[:6]
     if k == 'plot':
+        plot_func = plot_func_of(case)
         try: text = run_plot(case, plot_func)
         except Exception as e: return ['%s raised %s: %s' % (case['route'], type(e).__name__, str(e)[:100])]
         rows = [r for r in text.split('\n') if r]
@@ -453,6 +458,7 @@ def oracle(case):
 
 def search_cases(rng, n):
     for c in corpus(): yield c
+    for c in plot_oracle_corpus(): yield c
     for _ in range(n): yield gen_case(rng)
 def finding_for(case, fails): return None
 def replay_finding(f): return False
